@@ -2,6 +2,7 @@
 //!
 //!   drv-reqres exec --progs P.ndjson --work DIR --out T.ndjson
 //!       every line of P is {"cfg":{..},"steps":[{"a":..,"c":..,"s":..,"n":..,"j":..,"h":..},..]}
+//!   drv-reqres params --cfgs C.ndjson --work DIR      prints the chunk counts the code uses per cfg
 //!   drv-reqres gen --cfgs C.ndjson --runs N --len L --work DIR --out T.ndjson [--progs-out P.ndjson]
 //!       [--avoid-dead-client-send] [--api 0|1|2] [--churn PCT] [--probes]
 //!       seeded (VERIF_SEED) generator that knows the live objects; cfgs are used round-robin
@@ -132,6 +133,9 @@ fn leftovers(work: &str) -> u64 {
                         stack.push(p);
                     } else if p.file_name().map(|f| f.to_string_lossy().starts_with(&tag)).unwrap_or(false) {
                         n += 1;
+                        if std::env::var("VERIF_SHOW_LEFTOVERS").is_ok() {
+                            eprintln!("leftover: {}", p.display());
+                        }
                         let _ = std::fs::remove_file(&p);
                     }
                 }
@@ -168,6 +172,34 @@ fn main() {
                     r.run_program::<ipc::Service>(&cfg, &steps);
                 }
             }
+        }
+        Some("params") => {
+            // parameter extraction (DESIGN.md 3.3): chunk counts published by the running code
+            let cfgs: Vec<Cfg> = vlib::trace::read_ndjson(&args.get("cfgs").expect("--cfgs")).iter().map(Cfg::from_json).collect();
+            let mut outv = Vec::new();
+            for cfg in &cfgs {
+                r.run += 1;
+                let (config, prefix) = r.config();
+                let (nreq, nresp) = if cfg.svc == "local" {
+                    let w = World::<local::Service>::new(cfg, &config, &format!("verif/reqres/{prefix}")).expect("world");
+                    let v = (w.nreq, w.nresp);
+                    w.teardown();
+                    v
+                } else {
+                    let w = World::<ipc::Service>::new(cfg, &config, &format!("verif/reqres/{prefix}")).expect("world");
+                    let v = (w.nreq, w.nresp);
+                    w.teardown();
+                    v
+                };
+                let mut j = cfg.to_json();
+                j["nreq"] = json!(nreq);
+                j["nresp"] = json!(nresp);
+                outv.push(j);
+            }
+            r.out.flush();
+            leftovers(&work);
+            println!("{}", json!({"params": outv}));
+            return;
         }
         Some("gen") => {
             let cfgs: Vec<Cfg> = vlib::trace::read_ndjson(&args.get("cfgs").expect("--cfgs")).iter().map(Cfg::from_json).collect();
